@@ -214,6 +214,8 @@ struct History {
          for (auto& f : ck.fails) C.viol("shadow-fails-after-later-step:" + it.label.substr(0, it.label.find('(')) + ":" + std::get<1>(f), "a node built by " + it.label + " at step " + std::to_string(it.born) + " no longer reports what it was built from after step " + std::to_string(step) + ": " + std::get<2>(f));
       }
       C.eval(hash_mix(hash_bytes(it.label), std::uint64_t(step - it.born)));
+      if (step - it.born > 40 && (reobservations % 9973) == 0)
+         C.sample(J().s("kind", "re-observation").s("node", it.label).s("class", demangle(typeid(*it.n).name())).n("returned_at_step", it.born).n("re_observed_after_step", step).n("accessors_compared", (long long)it.fp.size()).b("container", it.container).str(), 4);
    }
    void reobserve(bool everything)
    {
@@ -333,7 +335,6 @@ static void body(Ctx& C)
    }
    for (auto k : { "histories", "steps", "reobservations", "shadow_reruns", "generative_results", "nodes_registered", "full_reobservations", "steps:sweep-section", "steps:unified-table-growth", "steps:words", "steps:member-addition", "redeclaration_steps" }) C.need(k);
    C.need("string_pools", 2);
-   C.sample(J().s("kind", "history").s("what", "open 9 containers + sweep; 60..120 steps (1500 in long histories) drawn from 24 step kinds; 80 nodes re-observed after every step, all nodes every 20th step and at the end").str());
 }
 
 int main(int argc, char** argv) { return guarded_main(argc, argv, body); }
